@@ -55,14 +55,19 @@ class State:
         a, b = self.cp.a, self.cp.b
         kind = ev[0]
         res = None
-        if kind in ("send", "send_err"):
+        if kind in ("send", "send_err", "send_text"):
             n = min(ev[1], self.remaining)
             if n <= 0:
                 res = ("nothing-left",)
             else:
                 try:
                     # one send() never takes more than a packet: do not materialise gigabytes for "send all"
-                    k = (a.send if kind == "send" else a.send_stderr)(b"d" * min(n, self.P + 64, 1 << 17))
+                    if kind == "send_text":
+                        # send() also takes text (it is encoded as UTF-8 on the way out): n bytes = n/2
+                        # two-byte characters; the bounds are about the bytes that reach the wire
+                        k = a.send("\u00e9" * (min(n, self.P + 64, 1 << 17) // 2 or 1))
+                    else:
+                        k = (a.send if kind == "send" else a.send_stderr)(b"d" * min(n, self.P + 64, 1 << 17))
                     self.remaining -= k
                     self.sent_app += k
                     res = ("sent", k)
@@ -201,6 +206,8 @@ def alphabet19(W, P):
         evs.append(("send", n))
     for n in sorted({1, P - 64, W + 1}):
         evs.append(("send_err", n))
+    for n in sorted({P - 64, W + 1}):
+        evs.append(("send_text", n))
     for n in sorted({1, T, T + 1, W}):
         evs.append(("recv", n))
     for n in sorted({T + 1, W}):
